@@ -11,6 +11,12 @@ use std::hash::BuildHasherDefault;
 use std::panic::{catch_unwind, AssertUnwindSafe};
 
 fn pair_lens(rng: &mut SplitMix64) -> (usize, usize) {
+    let xs = crate::util::extra_sizes();
+    if !xs.is_empty() && rng.coin(0.12) {
+        if let Some(v) = crate::util::near_size(rng, &xs, 300_000) {
+            return (v as usize, v as usize);
+        }
+    }
     let n = if rng.coin(0.3) { rng.range(1, 4) } else { rng.range(1, 64) } as usize;
     if rng.coin(0.15) {
         let mut k = rng.range(0, 66) as usize;
@@ -145,5 +151,6 @@ pub fn cases(args: &[String]) {
             emit(&mut out, "smh2_method_get_jaccard_index_estimate", "u64", "f64", &ka, &kb, oc, v.map(|x| x.to_bits()));
         }
     }
+    crate::util::wd_pause();
     println!("{}", json!({ "cases": out }));
 }
